@@ -69,7 +69,10 @@ var c19Inputs = []struct {
 	{"empty array", ` [ ] `, true},
 	{"unicode", `{"a": "é😀\u2028", "é": [1]}`, true},
 	{"big numbers", `{"a": 1e300, "b": 12345678901234567890, "c": 0.1}`, true},
-	{"html chars", `{"a": "<b>&amp;</b>"}`, true},
+	{"html chars", `{"a": "<b>&amp;</b>", "s": "<a href=\"x\">&</a>"}`, true},
+	{"control characters", `{"a": "x\u0001y\u007f\u001f", "s": "\u0000\u0008\u000b\u001b[0m\u0085\u2028\ufeff", "t": "tab\there"}`, true},
+	{"astral and unprintable", `{"s": "\ud83d\ude00\udb40\udc01\u200b", "a": ["\u0007"]}`, true},
+	{"numbers", `{"s": 1e21, "a": -0.0, "n": 1e-7, "t": 9007199254740993, "arr": [1.5e300, 5e-324]}`, true},
 	{"invalid utf-8 inside a string", "{\"a\": \"x\xffy\"}", true},
 	{"empty input", ``, false},
 	{"whitespace only", "  \n", false},
@@ -138,7 +141,7 @@ func c19(r *mon.Run) {
 			}
 			ii := rng.Intn(len(c19Inputs))
 			if i%3 == 0 {
-				ii = rng.Intn(12) // favour valid input
+				ii = rng.Intn(15) // favour valid input
 			}
 			in := c19Inputs[ii]
 			channel := []string{"stdin", "file", "missing file"}[[]int{0, 0, 1, 1, 1, 2}[rng.Intn(6)]]
